@@ -23,6 +23,7 @@ pub mod divide;
 pub mod front;
 pub mod contour;
 pub mod queue;
+pub mod widen;
 
 #[cfg(verif_replay)]
 #[test]
